@@ -87,6 +87,10 @@ func isStructVal(t types.Type) bool {
 	if isOpaqueIntStruct(t) {
 		return false
 	}
+	switch t {
+	case tySeq, tyEvent, tySet, tyIMap, tySMap, tyQMap, tyTrace:
+		return false
+	}
 	_, ok := t.Underlying().(*types.Struct)
 	return ok
 }
